@@ -254,10 +254,16 @@ func scalarKey(v any) string {
 	}
 }
 
+// NullSlotZero selects what the reference writer puts into the masked slot of a NULL: false —
+// the type's default (for an enum its first declared member, as the data type inserts it);
+// true — all-zero bytes (what a server's numeric column holds after a plain NULL insert, also
+// for enums without a member 0). Both occur on the wire; the slot is masked either way.
+var NullSlotZero bool
+
 func (t *Type) zero() any {
 	switch t.Kind {
 	case Fixed:
-		if (t.Base == "Enum8" || t.Base == "Enum16") && len(t.Args) > 0 {
+		if (t.Base == "Enum8" || t.Base == "Enum16") && len(t.Args) > 0 && !NullSlotZero {
 			// the default of an enum is its first declared member (0 need not be one)
 			if _, v, ok := strings.Cut(t.Args[0], "="); ok {
 				if n, err := strconv.Atoi(strings.TrimSpace(v)); err == nil {
